@@ -385,6 +385,17 @@ def run(ctx):
                             for x in nodes)
                         n_e += 1
                         ok = normalised or grid_derived
+                        if not ok:
+                            # the value comes out of a method of the package (a helper that builds the boundaries): judged by what it returns
+                            for x in full:
+                                if isinstance(x, ast.Call) and isinstance(x.func, ast.Attribute) and au.U(x.func.value) == "self":
+                                    for t_ in p.resolve_call(x, fn):
+                                        rets_ = [r_ for r_ in au.walk_stmts(t_.body) if isinstance(r_, ast.Return) and r_.value is not None]
+                                        if rets_ and all(any((isinstance(y, ast.Call) and au.method_name(y) in NORMALISERS) or
+                                                             (isinstance(y, ast.Call) and au.method_name(y) in ("Timestamp", "date_range", "to_datetime") and au.kwarg(y, "tz") is not None) or
+                                                             (isinstance(y, ast.Attribute) and y.attr in GRID_ATTRS and au.base_name(y) == "self" and t_.cls is not None and t_.cls.name == "Timegrid")
+                                                             for y in ctx.origins(t_).nodes(r_.value, r_)) for r_ in rets_):
+                                            ok = True
                         if not ok and isinstance(other, ast.Name) and fn.param(other.id) is not None and not [d for d in ctx.flow(fn).defs(other.id, st) if d.kind != "param"]:
                             # the value is a parameter of a helper: what matters is what the package's own callers hand over
                             # (a helper extracted from a comparison must not change the verdict of that comparison)
@@ -570,6 +581,38 @@ def run(ctx):
                "before the horizon - the rate is constant over other intervals than the asset's own, the optimum differs from the fine problem "
                "with the asset's equalities (553.7 vs 712.6)" % (au.short(sk, 40), au.short(ek, 40)), node=rng,
                key="coarse boundaries are counted from the window start")
+    # an empty range (no anchor of the frequency inside the window) is opened and closed as well: the repair of the first boundary is not
+    # made to depend on the range being non-empty - in __init__ or in a helper it calls
+    n_open = 0
+    for m_ in sorted(p.cls("Timegrid").methods.values(), key=lambda f: f.qualname):
+        for rng_ in au.walk_stmts(m_.body):
+            if not (isinstance(rng_, ast.Assign) and isinstance(rng_.targets[0], ast.Name) and isinstance(rng_.value, ast.Call)
+                    and au.method_name(rng_.value) == "date_range" and au.kwarg(rng_.value, "start") is not None
+                    and au.U(au.kwarg(rng_.value, "freq") or ast.Constant(None)) != "self.freq"):
+                continue
+            seq_ = rng_.targets[0].id
+            for x in au.walk_local(m_.node, include_self=False):
+                if isinstance(x, ast.Call) and isinstance(x.func, ast.Attribute) and x.func.attr == "insert" and au.base_name(x.func) == seq_ \
+                        and x.args and au.const_num(x.args[0]) == 0:
+                    n_open += 1
+                    needs_nonempty = None
+                    child = x
+                    for a0 in p.ancestors(x):
+                        if isinstance(a0, ast.If) and any(child is b0 or any(child is y for y in ast.walk(b0)) for b0 in a0.body):
+                            for cj in au.flatten_boolop(a0.test, ast.And):
+                                if isinstance(cj, ast.Compare) and isinstance(cj.left, ast.Call) and au.call_name(cj.left) == "len" and au.U(cj.left.args[0]) == seq_ \
+                                        and isinstance(cj.ops[0], (ast.Gt, ast.GtE, ast.NotEq)):
+                                    needs_nonempty = a0
+                                if isinstance(cj, ast.Call) and au.call_name(cj) == "len" and au.U(cj.args[0]) == seq_:
+                                    needs_nonempty = a0
+                        if a0 is m_.node:
+                            break
+                        child = a0
+                    ctx.ob("C19.i", m_, "an empty range of coarse boundaries is opened too", needs_nonempty is None,
+                           "the window start is prepended to %s only if the range is not empty (%s): a window without any anchor of the frequency (Monday "
+                           "to Saturday with 'W') yields no boundary at all, the coarse sub-grid is silently empty - T = 0, none of the 120 fine steps "
+                           "covered" % (seq_, au.short(needs_nonempty.test, 50) if needs_nonempty is not None else ""), node=x,
+                           key="an empty range of coarse boundaries is opened too")
     if not coarse:
         ctx.ob("C19.i", init, "coarse boundaries span the window", None, "date_range(start=self.start, ..., freq=<coarse freq>) not found")
     for rng in coarse:
